@@ -120,9 +120,10 @@ def run(chk, prog):
     from . import C01 as c01
     sub = type(chk)("C01", chk.tier)
     c01.run(sub, prog)
-    r = [i for i in sub.instances if i["rule"] == "R4" and "Identity" in i["what"]]
+    # (and how the damping/diffusion step applies its stencil table to the grid: C01/R5)
+    r = [i for i in sub.instances if (i["rule"] == "R4" and "Identity" in i["what"]) or i["rule"] == "R5"]
     for i in r:
-        chk.check(i["ok"], "R4", i["site"], "(C01/R4) %s" % i["what"].split("\n")[0][:220], "C01-R4:%s" % i.get("key", "ok"))
+        chk.check(i["ok"], "R4", i["site"], "(C01/%s) %s" % (i["rule"], i["what"].split("\n")[0][:220]), "C01-%s:%s" % (i["rule"], i.get("key", "ok")))
     chk.floor("R4-identity", len(r), 2)
     wmnew = [y for y in A.walk(mainf["body"]) if y["k"] == "CXXNewExpr" and "Identity" in (y.get("alloc_type") or "")]
     chk.check(len(wmnew) >= 2, "R4", mainf.where, "main builds Identity maps for the absent wake and the absent damping (%d)" % len(wmnew), "main:identities")
